@@ -131,4 +131,32 @@ def sanitizeAux : Nat → List UInt8 → List UInt8
 
 def sanitize (s : List UInt8) : List UInt8 := sanitizeAux s.length s
 
+/-! ### Specification: well-formed UTF-8 byte sequences (Unicode Standard, Table 3-7)
+
+Independent of the decoder above; `GrpcProofs.C08.valid_iff_wellFormed` proves that Go's notion
+(`utf8.ValidString`, modelled by `valid`) coincides with it. -/
+
+/-- `lo ≤ b ≤ hi` on a byte. -/
+abbrev inRange (lo hi : Nat) (b : UInt8) : Prop := lo ≤ b.toNat ∧ b.toNat ≤ hi
+
+/-- One row of Table 3-7: the encoding of a single Unicode scalar value. -/
+inductive Scalar : List UInt8 → Prop
+  | r00_7F (b0) : inRange 0x00 0x7F b0 → Scalar [b0]
+  | rC2_DF (b0 b1) : inRange 0xC2 0xDF b0 → inRange 0x80 0xBF b1 → Scalar [b0, b1]
+  | rE0 (b0 b1 b2) : inRange 0xE0 0xE0 b0 → inRange 0xA0 0xBF b1 → inRange 0x80 0xBF b2 → Scalar [b0, b1, b2]
+  | rE1_EC (b0 b1 b2) : inRange 0xE1 0xEC b0 → inRange 0x80 0xBF b1 → inRange 0x80 0xBF b2 → Scalar [b0, b1, b2]
+  | rED (b0 b1 b2) : inRange 0xED 0xED b0 → inRange 0x80 0x9F b1 → inRange 0x80 0xBF b2 → Scalar [b0, b1, b2]
+  | rEE_EF (b0 b1 b2) : inRange 0xEE 0xEF b0 → inRange 0x80 0xBF b1 → inRange 0x80 0xBF b2 → Scalar [b0, b1, b2]
+  | rF0 (b0 b1 b2 b3) : inRange 0xF0 0xF0 b0 → inRange 0x90 0xBF b1 → inRange 0x80 0xBF b2 → inRange 0x80 0xBF b3 →
+      Scalar [b0, b1, b2, b3]
+  | rF1_F3 (b0 b1 b2 b3) : inRange 0xF1 0xF3 b0 → inRange 0x80 0xBF b1 → inRange 0x80 0xBF b2 → inRange 0x80 0xBF b3 →
+      Scalar [b0, b1, b2, b3]
+  | rF4 (b0 b1 b2 b3) : inRange 0xF4 0xF4 b0 → inRange 0x80 0x8F b1 → inRange 0x80 0xBF b2 → inRange 0x80 0xBF b3 →
+      Scalar [b0, b1, b2, b3]
+
+/-- A well-formed UTF-8 string: a concatenation of scalar encodings. -/
+inductive WellFormed : List UInt8 → Prop
+  | nil : WellFormed []
+  | cons (pre t) : Scalar pre → WellFormed t → WellFormed (pre ++ t)
+
 end GrpcModel.Utf8
